@@ -339,6 +339,11 @@ def hist_variants(body, sub_opts=()):
 
 
 def run_history(tmp, tag, spec, hist):
+    with Probe() as P:
+        return _run_history(tmp, tag, spec, hist, P)
+
+
+def _run_history(tmp, tag, spec, hist, P):
     """hist: list of True / False (scheduler-level cache flag) / "dry" (cache on, dry run).  Returns per execution
     dict(out, execs: real probe executions, new_execs: executions recorded, probe_rows_ok, detail)."""
     from harness.progs import vm_c38
@@ -349,6 +354,7 @@ def run_history(tmp, tag, spec, hist):
         (tmp / "log").write_text("")
         before_rows, before_execs = db_rows(str(db)) if db.exists() else ({}, {})
         out, _ = run_expr(db, lambda: vm_c38.call38(spec), cache=(h is not False), dryrun=(h == "dry"))
+        out = P.reclassify(out)
         n = len((tmp / "log").read_text().split())
         rows, execs = db_rows(str(db))
         new = [j for j in rows if j not in before_rows]
@@ -477,6 +483,20 @@ class Probe:
                 t = backend._rv_c38_token = self.ntok
         return t
 
+    def reclassify(self, out):
+        """An extending sub-scheduler hands an inner error back as a VALUE in its result dict, which the calling scheduler
+        then pickles.  When that inner error is the shared-backend insert race / lock (a sqlalchemy error whose statement
+        parameters hold BLOBs as memoryview objects), the caller fails with TypeError 'cannot pickle memoryview objects'
+        instead: the same time-dependent failure, seen one level up.  It is re-labelled only when this attempt really had
+        an extending sub-scheduler return such a database error; any other TypeError stays a difference."""
+        if "error" in out and out["error"][0] == "TypeError" and "cannot pickle memoryview" in out["error"][1]:
+            inner = [sr for sr in self.sub_runs if sr.get("error_type") in ("IntegrityError", "OperationalError")
+                     and is_infra({"error": (sr["error_type"], sr.get("error_text") or "")})]
+            if inner:
+                return {"error": (inner[0]["error_type"], inner[0]["error_text"] + "  [handed back by an extending sub-scheduler in its "
+                                  "result dict; the calling scheduler could not pickle it: TypeError cannot pickle memoryview objects]")}
+        return out
+
     def patch(self, cls, name, wrapper_factory):
         orig = cls.__dict__[name]
         self.saved.append((cls, name, orig))
@@ -552,7 +572,10 @@ class Probe:
             def extend_run(self, expr, parent_job_id, *a, **kw):
                 r = orig(self, expr, parent_job_id, *a, **kw)
                 with P.lock:
+                    err = r.get("error") if isinstance(r, dict) else None
                     P.sub_runs.append({"mode": "extend", "backend": P.token(self.backend), "caller": parent_job_id,
+                                       "error_type": type(err).__name__ if err is not None else None,
+                                       "error_text": str(err)[:300] if err is not None else None,
                                        "job_id": r.get("job_id") if isinstance(r, dict) else None,
                                        "keys": sorted(r) if isinstance(r, dict) else None})
                 return r
@@ -1068,12 +1091,18 @@ class Check(PropertyCheck):
                             r = {"child_failed": "timeout"}
                         if "outs" in r:
                             rec["outs"] = [{k: (tuple(v) if k == "error" else v) for k, v in o.items()} for o in r["outs"]]
+                            for o in rec["outs"]:
+                                # no probe inside the child interpreter: the pickled face of the race is taken as such
+                                if "error" in o and o["error"][0] == "TypeError" and "cannot pickle memoryview" in o["error"][1]:
+                                    o["error"] = ("IntegrityError", "UNIQUE constraint failed (presumed; process executor, surfaced as "
+                                                  "TypeError cannot pickle memoryview objects)")
                         else:
                             rec["child_failed"] = r.get("child_failed")
                     else:
                         with Probe() as P:
                             for k, cache in enumerate(caches):
                                 out, s = run_expr(db, lambda: vm_c38.call38(round_spec(spec, k)), cache=cache, context=ctx, cfgctx=cfgctx)
+                                out = P.reclassify(out)
                                 rec["outs"].append(out)
                                 if is_infra(out):
                                     break
@@ -1256,7 +1285,8 @@ class Check(PropertyCheck):
         races = [x for x in getattr(self, "infra", []) if x["error"][0] == "IntegrityError"]
         if races:
             self.findings.append(Finding(KEY_RACE, f"a program run through subrun failed with {races[0]['error']!r:.260} "
-                                                   f"({len(races)} time(s) in this run; e.g. {races[0]['spec']:.300})",
+                                                   f"({len(races)} time(s) in this run, counting the cases where it surfaced one level up as TypeError 'cannot pickle "
+                                                   f"memoryview objects' because an extending sub-scheduler handed it back in its result dict; e.g. {races[0]['spec']:.300})",
                                          {"kind": "race", "spec": races[0]["spec"], "error": list(races[0]["error"])}))
         self.stat("oracle", "transient sqlite lock time-outs (program re-run)", sum(1 for x in getattr(self, "infra", []) if x["error"][0] == "OperationalError"))
         # the cache rule for the subrun job, on the real code
@@ -1307,6 +1337,7 @@ class Check(PropertyCheck):
                                     out["error"] = tuple(out["error"])
                             else:
                                 out, _ = run_expr(db, lambda: vm_c38.call38(round_spec(spec, k)), cache=cache, context=ctx, cfgctx=cfgctx)
+                                out = P.reclassify(out)
                             outs.append(out)
                     infra = [o for o in outs if is_infra(o)]
                     if infra:
